@@ -231,7 +231,31 @@ func pnftJudgeTx(m *pnftModel, spec *world.TxSpec, now time.Time, strictDelete b
 		}
 		return pnftJudge(m, im, now, strictDelete)
 	}
-	return pnftJudge(m, spec.Msgs[0], now, strictDelete)
+	if len(spec.Msgs) == 1 {
+		return pnftJudge(m, spec.Msgs[0], now, strictDelete)
+	}
+	// all-or-nothing over several messages
+	scratch := m.clone()
+	overall := mustAccept
+	for _, msg := range spec.Msgs {
+		vd, why, apply := pnftJudge(scratch, msg, now, strictDelete)
+		if vd == mustReject {
+			return mustReject, why, nil
+		}
+		if vd == eitherWay {
+			overall = eitherWay
+		}
+		if apply != nil {
+			apply()
+		}
+	}
+	return overall, "", func() {
+		for _, msg := range spec.Msgs {
+			if _, _, apply := pnftJudge(m, msg, now, strictDelete); apply != nil {
+				apply()
+			}
+		}
+	}
 }
 
 // ---------------------------------------------------------------------------------------------
@@ -300,6 +324,24 @@ func pnftOps(e *pnftEnv, v pnftVariant) []explore.Op {
 		txOp("Burn(d,t,A)", s(A), pnfttypes.NewMsgBurnPNFTRequest("d", "t", A.Bech)),
 		txOp("Burn(d,t,B)", s(B), pnfttypes.NewMsgBurnPNFTRequest("d", "t", B.Bech)),
 		txOp("Burn(d,t,C)", s(C), pnfttypes.NewMsgBurnPNFTRequest("d", "t", C.Bech)),
+	)
+	// rollback routes: transactions whose later message fails, and transactions that are only simulated on the node
+	failing := pnfttypes.NewMsgBurnPNFTRequest("nosuchdenom", "t", A.Bech)
+	failingB := pnfttypes.NewMsgBurnPNFTRequest("nosuchdenom", "t", B.Bech)
+	sim := func(name string, signers []*world.Account, msgs ...sdk.Msg) explore.Op {
+		o := txOp(name, signers, msgs...)
+		o.Aux = "simulate"
+		o.Rollback = true
+		return o
+	}
+	rb := func(o explore.Op) explore.Op { o.Rollback = true; return o }
+	ops = append(ops,
+		rb(txOp("Tx[TransferPNFT(d,t,A->B),failing]", s(A), pnfttypes.NewMsgTransferPNFTRequest("d", "t", A.Bech, B.Bech), failing)),
+		rb(txOp("Tx[TransferDenom(d,A->B),failing]", s(A), pnfttypes.NewMsgTransferRequest("d", A.Bech, B.Bech), failing)),
+		rb(txOp("Tx[Mint(d,tt,B),failing]", s(B), pnfttypes.NewMsgMintPNFTRequest("d", "tt", "tok-B", "", "", "", B.Bech, ""), failingB)),
+		sim("Simulate(TransferPNFT(d,t,A->B))", s(A), pnfttypes.NewMsgTransferPNFTRequest("d", "t", A.Bech, B.Bech)),
+		sim("Simulate(TransferDenom(d,A->B))", s(A), pnfttypes.NewMsgTransferRequest("d", A.Bech, B.Bech)),
+		sim("Simulate(DeleteDenom(d,A))", s(A), pnfttypes.NewMsgDeleteDenomRequest("d", A.Bech)),
 	)
 	if v.Auth {
 		grant := func(granter, grantee *world.Account, url string) sdk.Msg {
